@@ -404,6 +404,12 @@ def check(pid, spec, tier, seed, replay, t0):
             ood += 1
             continue
         d = compare(r["kind"], r["case"], r["impl"], r["model"], spec)
+        if not d and "property_check" in spec:
+            # the implementation behaves like the model; does that behaviour satisfy the property?
+            pv = spec["property_check"](r)
+            if pv:
+                r["signature_override"] = pv
+                d = "property predicate fails on the implementation's own output: " + pv
         lab = spec["label"](r) if "label" in spec else json.dumps(canon(r["model"]), sort_keys=True)
         dist[lab] = dist.get(lab, 0) + 1
         if spec.get("nontrivial", lambda r: True)(r):
@@ -418,7 +424,7 @@ def check(pid, spec, tier, seed, replay, t0):
     violations = []
     known_hits = {}
     for r in mismatches:
-        sig = spec.get("signature", default_signature)(r)
+        sig = r.get("signature_override") or spec.get("signature", default_signature)(r)
         r["signature"] = sig
         k = next((k for k in known if k["signature"] == sig), None)
         if k:
